@@ -77,7 +77,8 @@ def run (args : List String) : Option String :=
   | ["nlsamples", dny, dnx] => do
     -- number of boundary samples the cross-CRS branch (`pts_per_side = 5`) hands to `roi_from_points`
     let dny ← parseInt? dny; let dnx ← parseInt? dnx
-    pure (toString (srcSamplesCount (dny, dnx)))
+    -- first call: boundary of the destination; second call: boundary of the (non-empty) source region
+    pure s!"{srcSamplesCount (dny, dnx)} {(roiBoundary (⟨0, 1⟩, ⟨0, 1⟩) 5).length}"
   | _ => none
 
 end OdcGeo.C03.Drv
